@@ -1392,7 +1392,7 @@ def _DefocusPSF(dim, R):
         PSF[center[0], center[1]] = 1
     else:
         PSF = np.ones((m, n)) / (np.pi * R**2)
-        k = np.arange(1, max(m, n)+1)
+        k = np.arange(0, max(m, n)) # pixel indices (0-based, as `center` is)
         aa, bb = (k-center[0])**2, (k-center[1])**2
         A, B = np.meshgrid(aa, aa), np.meshgrid(bb, bb)
         idx = np.array(((A[0].T + B[0]) > (R**2)))
